@@ -25,6 +25,10 @@ class CMSSuite(Suite):
     def gen(self, rng, tier):
         n = 70 if tier == "quick" else 1800
         seqs = [self.gen_one(rng, i) for i in range(n)]
+        # additions and removals that cancel in the total while bins are non-zero: the total is a signed net
+        # count, so "total is 0" must not be taken for "sketch is empty" (clear, load, join fast paths)
+        for _ in range(8 if tier == "quick" else 120):
+            seqs.append(self.gen_netzero(rng))
         seqs.append([("new", 1, "min", {"w": 0, "d": 3}, "fnv", None), ("new", 1, "min", {"w": 3, "d": -1}, "fnv", None), ("new", 1, "min", {"conf": 0.0, "err": 0.1}, "fnv", None)])
         return seqs
 
@@ -87,6 +91,30 @@ class CMSSuite(Suite):
                 seq.append(("add", 1, rng.choice(universe), rng.choice([1, 1, 2, 3])))
         seq.append(("chkall", 1))
         seq[0] = seq[0] + (tuple(universe),)
+        return seq
+
+    def gen_netzero(self, rng):
+        kind = rng.choice(["min", "min", "mean", "meanmin", "st"])
+        dims = {"w": rng.choice([2, 3, 5, 17]), "d": rng.choice([1, 2, 3, 4])}
+        strat = rng.choice(["fnv", "fnv", "md5", "custom"])
+        extra = rng.choice([1, 2, 3]) if kind == "st" else None
+        u = [k for k in make_universe(rng, 8) if isinstance(k, str)] or ["a", "b", "c"]
+        while len(u) < 3:
+            u.append("x%d" % len(u))
+        seq = [("new", 1, kind, dims, strat, extra), ("new", 2, kind, dims, strat, extra)]
+        total = 0
+        for _ in range(rng.randint(1, 4)):
+            n = rng.choice([1, 2, 3, 7])
+            seq.append(("add", 1, rng.choice(u[:2]), n))
+            total += n
+        seq.append(("rem", 1, u[2], total))  # total is 0 now, bins are not
+        tail = [("chk", 1, u[0]), ("export", 1, "bytes"), ("load", 3, "bytes", 1), ("chk", 3, u[0]), ("load", 3, "file", 1), ("chk", 3, u[2]), ("str", 1)]
+        if kind != "st":
+            tail += [("add", 2, u[1], 2), ("join", 2, 1), ("chk", 2, u[0]), ("join", 1, 2)]
+        rng.shuffle(tail)
+        seq += tail
+        seq += [("clear", 1), ("chk", 1, u[0]), ("add", 1, u[1], 1), ("chk", 1, u[1]), ("export", 1, "bytes"), ("chkall", 1)]
+        seq[0] = seq[0] + (tuple(u),)
         return seq
 
     def cls(self, kind):
